@@ -254,6 +254,11 @@ def valgrind_stage(env):
         if len(data) > 30000:
             data = data[:30000]
         inputs.append(bytes(rng.randrange(256) for _ in range(8)) + data)
+    # line-terminator conversion at the edges of what a refill delivered: every fill of these ends in a CR (the code unit
+    # behind it has never been written when the buffer is new), the last one at the very end of the buffer
+    sel = bytes(8)
+    inputs += [sel + b'data_a\r' + b'\r' * 9000 + b'_x 1\r', sel + b'data_a\r\n' + b'\r\n' * 5000 + b'_x 1\r\n',
+               sel + b'data_a\r_t\r;' + b'ab\r' * 3000 + b';\r_x 1\r', sel + b'data_a\r' + b'\r' * 140000 + b'_x 1\r']
     st = fuzz.run_valgrind(inputs, procs=16)
     viols = [dict(t='viol', key=key, detail=detail, case=dict(artifact_b64=base64.b64encode(data).decode())) for key, detail, data in st['findings']]
     return st, viols
